@@ -150,6 +150,10 @@ func (r *Value) onUpdate(ctx context.Context, config *ReadRequest) (<-chan any, 
 		changeTime time.Time
 	)
 	if !config.UpdatesOnly {
+		// see Collection.onUpdate: the snapshot and the registration are not interleaved with a write's
+		// commit and publication
+		r.pubMu.Lock()
+		defer r.pubMu.Unlock()
 		r.mu.RLock()
 		defer r.mu.RUnlock()
 		value = r.value
